@@ -3,7 +3,7 @@
 (* TLC state `v' (a short tuple of small integers); the invariant Out builds   *)
 (* the abstract message of the case from WireRR's layout tables, evaluates the *)
 (* specification on it and appends one JSON line                               *)
-(*    [g, v, msg, ok, bytes, rroff, lenmsg, plain (, norm)]                    *)
+(*    [g, v, msg, ok, bytes, rroff, lenmsg, plain, refuse (, norm)]            *)
 (* to vectors.ndjson: the message, whether it can be packed, the octets        *)
 (* EncMsg prescribes, the record offsets, the arithmetic length and -- when    *)
 (* it differs from msg -- what a decoder must recover (NormMsg).               *)
@@ -12,7 +12,7 @@
 EXTENDS WireRR, GenBase
 
 CONSTANTS Mode,        \* "layout" | "types" | "cross" | "rrhdr" | "opts" | "svcb" | "gateway" | "nodata" | "unknown"
-                       \* | "hdr" | "rcode" | "sections" | "big" | "compress"
+                       \* | "hdr" | "rcode" | "sections" | "big" | "compress" | "orders"
           Tier,        \* 0 quick (boundary subsets), 1 thorough (all flag words, all RCODEs)
           Shard, NShards
 
@@ -327,6 +327,29 @@ PadMsg(pad) ==
          RR(Mail, 15, 1, Ttl1h, [Preference |-> 20, Mx |-> << <<109, 120>> >> \o Mail]),
          RR(<< <<109, 120>> >> \o Mail, 1, 1, Ttl1h, [A |-> <<192, 0, 2, 1>>]) >>, <<>>, <<>>)
 
+(* Sets that travel in canonical order (type bitmaps, SvcParams, mandatory keys): the *)
+(* same set is handed to the packer in several orders -- increasing, decreasing, and   *)
+(* increasing with one adjacent pair exchanged (every position, first and last pair    *)
+(* included) -- for sets of 2, 3 and 4 elements.  WireRR gives them all one encoding.  *)
+SwapAt(s, i) == [j \in 1..Len(s) |-> IF j = i THEN s[i + 1] ELSE IF j = i + 1 THEN s[i] ELSE s[j]]
+InOrder(s, o) == IF o = 0 THEN s ELSE IF o = -1 THEN Reverse(s) ELSE SwapAt(s, o)      \* s is increasing
+OrdersOf(s)   == {0, -1} \cup 1..(Len(s) - 1)
+MandSets   == << <<1, 4>>, <<1, 3>>, <<3, 65280>>, <<1, 3, 4>>, <<1, 4, 6>>, <<1, 3, 4, 6>>, <<1, 4, 7, 65280>> >>
+ParamSets  == << <<1, 3>>, <<1, 4>>, <<0, 1>>, <<1, 3, 4>>, <<2, 7, 65280>>, <<1, 3, 4, 6>>, <<2, 7, 65280, 65534>> >>
+TypeSets   == << <<1, 2>>, <<1, 15>>, <<1, 257>>, <<1, 2, 5>>, <<1, 15, 46>>, <<1, 257, 513>>, <<15, 16, 17>>,
+                 <<1, 2, 15, 46>>, <<1, 15, 257, 513>>, <<6, 255, 256, 65535>>, <<7, 8, 9, 10>> >>
+OrderSets(kind) == IF kind = 1 THEN MandSets ELSE IF kind = 2 THEN ParamSets ELSE TypeSets
+OrdersMsg(kind, x, o) ==
+  LET set == OrderSets(kind)[x] IN
+  CASE kind = 1 ->     \* the mandatory list out of order, the parameters it names in order
+         Msg(H0, <<>>, << SvcbRR(64, 1, NameA, << Par(0, [Code |-> InOrder(set, o)]) >> \o [i \in 1..Len(set) |-> BasePar(set[i])]) >>, <<>>, <<>>)
+    [] kind = 2 ->     \* the parameters out of order
+         Msg(H0, <<>>, << SvcbRR(65, 1, NameA, InOrder([i \in 1..Len(set) |-> BasePar(set[i])], o)) >>, <<>>, <<>>)
+    [] OTHER ->        \* 3 NSEC, 4 NSEC3, 5 CSYNC: the type list out of order
+         LET t == IF kind = 3 THEN 47 ELSE IF kind = 4 THEN 50 ELSE 62
+             es == FieldsOf(t) IN
+         One1(t, With(es, CHOOSE i \in 1..Len(es) : es[i].k = "bitmap", InOrder(set, o)))
+
 -----------------------------------------------------------------------------
 InShard(x) == x % NShards = Shard
 
@@ -365,6 +388,8 @@ Init ==
   \/ Mode = "compress" /\ \/ \E x \in 1..Len(CompressCases) : InShard(x) /\ v = <<1, x>>
                           \/ \E pad \in (IF Tier = 0 THEN {16320, 16334, 16337, 16338, 16339, 16345, 16350, 16355, 16370}
                                                         ELSE 16300..16400) : InShard(pad) /\ v = <<2, pad>>
+  \/ Mode = "orders" /\ \E kind \in 1..5 : \E x \in 1..Len(OrderSets(kind)) : \E o \in OrdersOf(OrderSets(kind)[x]) :
+                          InShard(x) /\ v = <<kind, x, o>>
 Next == UNCHANGED v
 
 Case ==
@@ -383,6 +408,7 @@ Case ==
     [] Mode = "sections" -> SectionsMsg(v[1], v[2], v[3], v[4])
     [] Mode = "big"      -> BigMsg(v[1])
     [] Mode = "compress" -> IF v[1] = 1 THEN CompressCases[v[2]] ELSE PadMsg(v[2])
+    [] Mode = "orders"   -> OrdersMsg(v[1], v[2], v[3])
 
 \* the only deliberately ill-formed cases: RCODE 4096, RDATA of 65536 octets
 MayBeIllFormed == (Mode = "rcode" /\ v[1] > 4095) \/ (Mode = "big" /\ v[1] = 4)
@@ -394,7 +420,8 @@ Vector(m) ==
                bytes |-> IF ok THEN EncMsg(m) ELSE <<>>,
                rroff |-> IF ok THEN RROffsets(m) ELSE <<>>,
                lenmsg |-> IF wf THEN LenMsg(m) ELSE 0,
-               plain |-> wf /\ PlainMsg(m)]
+               plain |-> wf /\ PlainMsg(m),
+               refuse |-> wf /\ MayRefuse(m)]        \* AMBIG: Pack() may refuse this value instead of packing it
   IN IF ok /\ NormMsg(m) # m THEN base @@ [norm |-> NormMsg(m)] ELSE base
 
 Fld(e) == IF "sz" \in DOMAIN e THEN [n |-> e.n, k |-> e.k, sz |-> e.sz]
